@@ -47,7 +47,7 @@ def _base_state(expr, aliases: Dict[str, str], module_globals: Set[str]) -> Opti
     return None
 
 
-def _scan_function(fi: Optional[FuncInfo], module, body, out: List[Write], default_aliases=None):
+def _local_aliases(module, body, default_aliases=None) -> Dict[str, str]:
     module_globals = set(module.globals) | set(module.imports)
     aliases: Dict[str, str] = dict(default_aliases or {})
     # flow-insensitive local aliases: name = <x>.attr | GLOBAL | self._a = {} chains
@@ -65,6 +65,12 @@ def _scan_function(fi: Optional[FuncInfo], module, body, out: List[Write], defau
                         s = _base_state(val, {}, module_globals) if isinstance(val, (ast.Attribute, ast.Name)) else None
                         if s is not None and (isinstance(val, ast.Attribute) or val.id in module.globals):
                             aliases[t.id] = s
+    return aliases
+
+
+def _scan_function(fi: Optional[FuncInfo], module, body, out: List[Write], default_aliases=None):
+    module_globals = set(module.globals) | set(module.imports)
+    aliases = _local_aliases(module, body, default_aliases)
     for n in _walk_no_nested(body):
         if isinstance(n, (ast.Assign, ast.AnnAssign, ast.AugAssign)):
             tgts = n.targets if isinstance(n, ast.Assign) else [n.target]
@@ -110,19 +116,73 @@ def _walk_no_nested(body):
             stack.append(c)
 
 
+def _param_aliases(prog: Program) -> Dict[str, Dict[str, str]]:
+    """Interprocedural part of the alias analysis: a parameter of a private helper aliases the persistent state
+    every caller passes for it (`self._helper(op, other, _op_cache)` with `_op_cache = _UNIT_OP_CACHE`)."""
+    funcs = []
+    for m in prog.modules.values():
+        for fi in m.functions.values():
+            funcs.append((fi, m, None))
+        for ci in m.classes.values():
+            for fi in ci.methods.values():
+                if fi.alias_of is None:
+                    funcs.append((fi, m, ci))
+    pal: Dict[str, Dict[str, str]] = {fi.qualname: dict(_default_aliases(fi, m)) for fi, m, _ in funcs}
+    for _round in range(4):
+        changed = False
+        for fi, m, ci in funcs:
+            al = _local_aliases(m, fi.node.body, pal[fi.qualname])
+            mg = set(m.globals)
+            for n in _walk_no_nested(fi.node.body):
+                if not isinstance(n, ast.Call):
+                    continue
+                callee = None
+                f = n.func
+                if isinstance(f, ast.Attribute) and isinstance(f.value, ast.Name) and f.value.id in ("self", "cls") \
+                        and ci is not None:
+                    callee = prog.lookup(ci, f.attr)
+                    skip = 1
+                elif isinstance(f, ast.Name) and f.id in m.functions:
+                    callee = m.functions[f.id]
+                    skip = 0
+                if callee is None or callee.node is None or not callee.name.startswith("_") or \
+                        callee.name.startswith("__"):
+                    continue
+                a = callee.node.args
+                params = [p.arg for p in a.posonlyargs + a.args]
+                if skip and callee.kind == "staticmethod":
+                    skip = 0
+                bound = dict(zip(params[skip:], n.args))
+                for kw in n.keywords:
+                    if kw.arg:
+                        bound[kw.arg] = kw.value
+                for pname, arg in bound.items():
+                    st_ = None
+                    if isinstance(arg, ast.Name):
+                        st_ = al.get(arg.id) or (arg.id if arg.id in mg and arg.id not in m.functions
+                                                 and arg.id not in m.classes else None)
+                    if st_ is not None and pal[callee.qualname].get(pname) != st_:
+                        pal[callee.qualname][pname] = st_
+                        changed = True
+        if not changed:
+            break
+    return pal
+
+
 def inventory(prog: Program, modules: Optional[Iterable[str]] = None) -> List[Write]:
     out: List[Write] = []
+    pal = _param_aliases(prog)
     for name, m in prog.modules.items():
         if modules is not None and name not in modules:
             continue
         top = [s for s in m.tree.body if not isinstance(s, (ast.FunctionDef, ast.ClassDef))]
         _scan_function(None, m, top, out)
         for fi in m.functions.values():
-            _scan_function(fi, m, fi.node.body, out, _default_aliases(fi, m))
+            _scan_function(fi, m, fi.node.body, out, pal.get(fi.qualname) or _default_aliases(fi, m))
         for ci in m.classes.values():
             for fi in ci.methods.values():
                 if fi.alias_of is None:
-                    _scan_function(fi, m, fi.node.body, out, _default_aliases(fi, m))
+                    _scan_function(fi, m, fi.node.body, out, pal.get(fi.qualname) or _default_aliases(fi, m))
             # nested function definitions inside methods are scanned as part of nothing; none exist today
     return out
 
@@ -210,6 +270,10 @@ class CallGraph:
         return seen
 
 
+def _is_public(name: str) -> bool:
+    return not name.startswith("_") or (name.startswith("__") and name.endswith("__"))
+
+
 def check_ownership(res, rule: str, writes: List[Write], state: str, owners: Dict[str, Set[str]],
                     cg: Optional[CallGraph] = None, case_prefix=""):
     """Who-may-write: every write of `state` is in an owner function with a whitelisted
@@ -226,10 +290,22 @@ def check_ownership(res, rule: str, writes: List[Write], state: str, owners: Dic
         else:
             name = q.split(".")[-1]
             if cg is not None and name.startswith("_") and not name.startswith("__") and q in cg.funcs:
-                callers = cg.all_callers(q)
-                pub = {c for c in callers if c not in owners and not c.split(".")[-1].startswith("_")}
+                # climb through private helpers only: an owner above is a legitimate entry point, a public
+                # non-owner above is a foreign writer
+                callers, pub, stack = set(), set(), list(cg.callers.get(q, ()))
+                while stack:
+                    c = stack.pop()
+                    if c in callers:
+                        continue
+                    callers.add(c)
+                    if c in owners:
+                        continue
+                    if _is_public(c.split(".")[-1]):
+                        pub.add(c)
+                    else:
+                        stack.extend(cg.callers.get(c, ()))
                 allowed_ops = set().union(*owners.values()) if owners else set()
-                ok = bool(callers) and not pub and (w.op in allowed_ops)
+                ok = bool(callers) and not pub and (w.op in allowed_ops or "*" in allowed_ops)
                 why = f"helper reachable from non-owner(s) {sorted(pub)[:3]}" if pub else "operation not whitelisted"
             else:
                 why = "function is not an owner of this state"
